@@ -534,6 +534,20 @@ func pureDefinition(fn *core.FuncRef, v *types.Var) ast.Expr {
 	return def
 }
 
+// evaluatedFieldVar: the variable that `x, err := <recv>.<field>.Evaluate(…)` defines in fn ("" if none).
+func evaluatedFieldVar(fn *core.FuncRef, recvName, field string) string {
+	name := ""
+	ast.Inspect(fn.Decl.Body, func(n ast.Node) bool {
+		if as, ok := n.(*ast.AssignStmt); ok && len(as.Rhs) == 1 && len(as.Lhs) >= 1 {
+			if call, ok := as.Rhs[0].(*ast.CallExpr); ok && core.ExprStr(call.Fun) == recvName+"."+field+".Evaluate" {
+				name = core.ExprStr(as.Lhs[0])
+			}
+		}
+		return true
+	})
+	return name
+}
+
 // singleDef: the expression a local variable is defined by, when it is assigned exactly once under root (its
 // definition) and its address is never taken — such a variable is a name for that expression's value.
 func singleDef(info *types.Info, root ast.Node, obj types.Object) ast.Expr {
